@@ -260,7 +260,7 @@ fn c06_wire(seed: u64, rep: &Report) -> Result<(), String> {
     let mut sent: Vec<(String, usize, String, i64)> = vec![];
     let mut qn = 0;
     for (k, exp) in keys.iter().zip(expect.iter()) {
-        let path = *rng.pick(&["set_sharding_key", "comment_regex", "literal_where", "literal_insert", "bind_text", "bind_binary", "set_sharding_key_sticky"]);
+        let path = *rng.pick(&["set_sharding_key", "comment_regex", "literal_where", "literal_insert", "bind_text", "bind_binary", "set_sharding_key_sticky", "bind_after_unresolved_bind", "bind_after_unresolved_bind"]);
         qn += 1;
         let qid = format!("k.q{}", qn);
         let t = tag("k", &qid, "");
@@ -289,6 +289,35 @@ fn c06_wire(seed: u64, rep: &Report) -> Result<(), String> {
             }
             "literal_insert" => {
                 run_q(&mut c, &format!("INSERT INTO data (id, v) VALUES ({}, 'x') {}", k, t))?;
+            }
+            "bind_after_unresolved_bind" => {
+                // first a Bind from which no single shard follows (NULL key, or two keys of different
+                // shards), then a statement with another parameter layout: only its own key counts
+                let first = format!("{}u", qid);
+                let tf = tag("k", &first, "");
+                let mut b = vec![];
+                // an integer that is the key of ANOTHER shard
+                let others: Vec<i64> = (0..40).map(|j| (*k % 1_000_000) + 1 + j).collect();
+                let e2 = ref_shards(if func == "sha1" { "sha1" } else { "pg" }, n, &others)?;
+                let other = others.iter().zip(e2.iter()).find(|(_, s)| **s != *exp).map(|(o, _)| *o).unwrap_or(*k);
+                if rng.chance(1, 2) {
+                    b.extend(proto::parse("", &format!("SELECT * FROM data WHERE id = $1 {}", tf), &[]));
+                    b.extend(proto::bind("", "", &[], &[None], &[]));
+                } else {
+                    b.extend(proto::parse("", &format!("SELECT * FROM data WHERE id = $1 OR id = $2 {}", tf), &[]));
+                    b.extend(proto::bind("", "", &[], &[Some(k.to_string().into_bytes()), Some(other.to_string().into_bytes())], &[]));
+                }
+                b.extend(proto::execute("", 0));
+                b.extend(proto::sync());
+                c.send(&b).map_err(|e| e.to_string())?;
+                c.read_until_ready(8000).map_err(|(m, e)| format!("{:?} {}", e, summarize(&m)))?;
+                let mut b = proto::parse("", &format!("SELECT * FROM data WHERE v = $1 AND id = $2 {}", t), &[]);
+                // (the non-key parameter is itself an integer that hashes to another shard)
+                b.extend(proto::bind("", "", &[], &[Some(other.to_string().into_bytes()), Some(k.to_string().into_bytes())], &[]));
+                b.extend(proto::execute("", 0));
+                b.extend(proto::sync());
+                c.send(&b).map_err(|e| e.to_string())?;
+                c.read_until_ready(8000).map_err(|(m, e)| format!("{:?} {}", e, summarize(&m)))?;
             }
             "bind_text" | "bind_binary" => {
                 let mut b = proto::parse("", &format!("SELECT * FROM data WHERE id = $1 {}", t), &[]);
@@ -351,7 +380,7 @@ fn c06_wire(seed: u64, rep: &Report) -> Result<(), String> {
 
 pub fn run_c06(tier: &str) -> i32 {
     let rep = Report::new("C06", tier, "exploration",
-        "lib leg: Sharder::shard vs an independent transcription of hashint8extended/hash_combine64/partition modulus (validated on the repo's PostgreSQL-derived vectors) over 2^24 (quick) / all 2^32 (thorough, exhaustive) values of the 32-bit word the hash consumes x 10 shard counts + random 64-bit keys, and agreement of every key-delivery path; wire leg: 2/3/5/12/16 single-server shards, statements delivered by SET SHARDING KEY / comment regex / literal / INSERT VALUES / Bind text / Bind binary must land on the mock of the reference shard, selection sticks, out-of-range SET SHARD refused; distinct = lib keys + wire (path,shards,function,key)");
+        "lib leg: Sharder::shard vs an independent transcription of hashint8extended/hash_combine64/partition modulus (validated on the repo's PostgreSQL-derived vectors) over 2^24 (quick) / all 2^32 (thorough, exhaustive) values of the 32-bit word the hash consumes x 10 shard counts + random 64-bit keys, and agreement of every key-delivery path; wire leg: 2/3/5/12/16 single-server shards, statements delivered by SET SHARDING KEY / comment regex / literal / INSERT VALUES / Bind text / Bind binary / a Bind following one that resolved to no single shard (NULL key, keys of two shards) must land on the mock of the reference shard, selection sticks, out-of-range SET SHARD refused; distinct = lib keys + wire (path,shards,function,key)");
     let lib_ok = libleg::run("C06", &rep, libleg::identity);
     if lib_ok && rep.get("lib:exhaustive_u32") >= 1 {
         rep.extra("exhaustive", json!(true));
